@@ -9,6 +9,7 @@ pub mod vk;
 pub mod stubs;
 
 pub mod h_arch;
+pub mod h_batch;
 pub mod h_domain;
 pub mod h_vk_read;
 
